@@ -443,6 +443,18 @@ class MatEval:
                 # several returns: must agree under the current assumptions
                 pass
             return sub[-1][1] if len(sub) == 1 else self._pick(sub)
+        # private module-level helper function (e.g. an extracted expression): inline
+        if isinstance(e.func, ast.Name) and e.func.id in f.module.functions and e.func.id not in self.p.classes and e.func.id not in env:
+            g = f.module.functions[e.func.id]
+            binds = {}
+            for prm, a in zip(g.params, e.args):
+                binds[prm] = env[a.id] if isinstance(a, ast.Name) and a.id in env else self.ev(f, a, env)
+            for kw in e.keywords:
+                binds[kw.arg] = self.ev(f, kw.value, env)
+            sub = self.returns(g, binds)
+            if not sub:
+                raise AnalysisError(f"{f.qualname}: helper {g.qualname} has no return")
+            return sub[-1][1] if len(sub) == 1 else self._pick(sub)
         # constructor through a local name bound to a class or to a conditional choice of classes:
         #   cls = A if cond else B; return cls(args)   ==   A(args) if cond else B(args)
         if isinstance(e.func, ast.Name) and isinstance(env.get(e.func.id), tuple) and env[e.func.id][0] == "lazy":
